@@ -85,6 +85,16 @@ def gen_run(rng, rid, big=False, extreme=False):
                 u = rng.random()
                 if u < 0.3: a0[i] = (c["Cpos"] if y[i] else -c["Cneg"]) * rng.choice([1.0, 0.5, 0.25])
         c["a0"] = a0
+    if kind == "svm" and rng.random() < 0.15:
+        # near-duplicate inputs with contradicting labels, un-normalised kernel, single-precision cache: the curvature
+        # K_ii + K_jj - 2 K_ij of such a pair is ~0 and can come out slightly NEGATIVE in float (floor of updateSMO)
+        c["kernel"] = "lin"; c["gamma"] = 0.0; c["matrix"] = rng.choice(["cf", "cf", "cd"]); c["warm"] = 0; c.pop("a0", None)
+        c["cachesize"] = 100000
+        base = [[rng.uniform(-3, 3) for _ in range(d)] for _ in range((n + 1) // 2)]
+        pts = []
+        for p in base: pts.append(p); pts.append([v + rng.choice([1e-6, -1e-6, 3e-7, 1e-5]) * rng.gauss(0, 1) for v in p])
+        c["x"] = pts[:n]; c["y"] = [i % 2 for i in range(n)]
+        c["Cneg"] = c["Cpos"] = rng.choice([1.0, 10.0, 100.0])
     c["stream"] = "main"
     return c
 
